@@ -209,6 +209,46 @@ def shrink_t1(ctx, case, first_bad):
     return best
 
 
+def shrink_t2(ctx, prop, case, budget=14):
+    """A case whose last op violates the property's tolerance against the exact instance: drop blocks of feed ops (from the front, by
+    halves) while the violation persists. Returns (case, result) with the implementation's observations of the kept case."""
+    from common import Case
+
+    def fails(c):
+        try:
+            run_harness(ctx.binary, [c], "shrink2")
+            r = coq_check_cases([c], "shrink2", checker=prop.t2_checker, extra_header="From TA Require Import XQ Run2.\n", timeout=600)
+            return r[0]
+        except Exception:  # noqa
+            return 0
+    best, best_r = case, None
+    head = [o for o in case.ops if o[0] in ("new", "def")]
+    feeds = [o for o in case.ops if o[0] not in ("new", "def")]
+    if len(head) + len(feeds) != len(case.ops) or case.ops[:len(head)] != head or len(feeds) < 4:
+        return case, None
+    tries = 0
+    chunk = len(feeds) // 2
+    while chunk >= 1 and tries < budget:
+        cand_feeds = feeds[chunk:]
+        if len(cand_feeds) < 1:
+            chunk //= 2
+            continue
+        cand = Case(case.cid.replace("_cut", "") + "_min", head + cand_feeds, (), dict(case.meta))
+        tries += 1
+        r = fails(cand)
+        if r:
+            # keep only up to the (possibly earlier) first failing op
+            k = r if 0 < r <= len(cand.ops) else len(cand.ops)
+            feeds = cand_feeds[:max(1, k - len(head))]
+            best = Case(cand.cid, head + feeds, (), dict(case.meta))
+            best.obs = cand.obs[:len(best.ops)]
+            best_r = len(best.ops)
+            chunk = min(chunk, len(feeds) // 2)
+        else:
+            chunk //= 2
+    return best, best_r
+
+
 def run_check(prop, pid, tier, seed):
     timer = Timer()
     ctx = Ctx(pid, tier, seed)
@@ -260,10 +300,24 @@ def run_check(prop, pid, tier, seed):
                     t2 = coq_check_cases(t2cases, pid + "t2", checker=prop.t2_checker,
                                          extra_header="From TA Require Import XQ Run2.\n", timeout=2400)
                     ctx.stats["t2_cases"] = len(t2cases)
+                    shrunk = False
                     for c, r in zip(t2cases, t2):
                         c.t2 = r
                         if r != 0:
-                            pv.append(prop.t2_violation(ctx, c, r))
+                            v_ = prop.t2_violation(ctx, c, r)
+                            if not shrunk and v_.finding_key is None and 0 < r <= len(c.ops) and r > 12:
+                                # the first concrete violation is reduced to a short replay
+                                shrunk = True
+                                try:
+                                    cut = Case(c.cid + "_cut", c.ops[:r], (), dict(c.meta))
+                                    small, r_small = shrink_t2(ctx, prop, cut)
+                                    if r_small:
+                                        v2 = prop.t2_violation(ctx, small, r_small)
+                                        v2.detail = dict(v2.detail or {}, shrunk_from=len(cut.ops), original_case=c.cid)
+                                        v_ = v2
+                                except Exception:  # noqa
+                                    pass
+                            pv.append(v_)
                 # --- property predicates evaluated on the implementation's own outputs
                 pv += prop.check_impl(ctx, cases)
                 violations.extend(pv)
